@@ -94,7 +94,7 @@ def main(tier, seed, replay=None):
         shapes = [shapes[i] for i in rs.choice(len(shapes), size=250, replace=False)]
     for f in shapes:
         builders.append(("shape", f))
-    for i in range(60 if tier == "quick" else 600):
+    for i in range(60 if tier == "quick" else 2400):
         builders.append(("random", lambda i=i: c01.gen_circuit(rs, i, tier, kinds=[("bern",), ("bern", "cat")][i % 2], clt=0.15)))
     cases = []; dist = dict(shape=0, random=0, nodes_before=0, nodes_after=0, shrunk=0)
     for tag, f in builders:
